@@ -15,7 +15,8 @@ import (
 //	pbcmpl.File  [init, kind, [[off, [hasver, ver, payload]] ...]]
 //	    for every placement in turn   pbcmpl.Marshal(iohelper.AtToWriter(memfile, off), msg)
 //	    then for every placement      pbcmpl.Unmarshal(iohelper.AtToReader(memfile, off), blank)
-//	    obs: [[[n, errclass] ...], file content, [[n, version, errclass, payload] ...]]
+//	    then repeated Unmarshal through ONE AtToReader at the smallest offset (the frames as a stream)
+//	    obs: [[[n, errclass] ...], file content, [[n, version, errclass, payload] ...], [stream steps likewise]]
 //
 // kind / message helpers / error classes are those of C06 (harness/c06.go).
 func init() {
@@ -38,7 +39,28 @@ func init() {
 			}
 			ures = append(ures, L(I(n), Str(ver), Int(c06ErrClass(err)), Bytes(payload)))
 		}
-		return L(L(mres...), file, L(ures...))
+		// the frames read as a stream: repeated Unmarshal through ONE AtToReader at the smallest offset
+		minOff := int64(c18FileLimit)
+		for _, pl := range a[2].L {
+			if o := pl.L[0].I64(); o < minOff {
+				minOff = o
+			}
+		}
+		var sres []string
+		r := iohelper.AtToReader(m, minOff)
+		for i := 0; i <= len(a[2].L); i++ {
+			blank := c06Blank(kind)
+			n, ver, err := pbcmpl.Unmarshal(r, blank)
+			var payload []byte
+			if err == nil {
+				payload = c06Payload(blank)
+			}
+			sres = append(sres, L(I(n), Str(ver), Int(c06ErrClass(err)), Bytes(payload)))
+			if err != nil {
+				break
+			}
+		}
+		return L(L(mres...), file, L(ures...), L(sres...))
 	}
 }
 
